@@ -343,6 +343,48 @@ func random(n int, sents []sentence) {
 	}
 }
 
+// textsMode replays logged cases given as byte arrays: {"in": [..]} -> Lex, {"kind","quotes","in"} -> One,
+// {"var", "a": [..], "b": [..]} -> Pair.
+func textsMode(path string) {
+	f, err := os.Open(path)
+	must(err)
+	defer f.Close()
+	str := func(b []int) string {
+		r := make([]byte, len(b))
+		for i, x := range b {
+			r[i] = byte(x)
+		}
+		return string(r)
+	}
+	sc := bufio.NewScanner(f)
+	sc.Buffer(make([]byte, 1<<20), 1<<26)
+	for sc.Scan() {
+		if len(strings.TrimSpace(sc.Text())) == 0 {
+			continue
+		}
+		var c struct {
+			In     []int  `json:"in"`
+			Kind   string `json:"kind"`
+			Quotes int    `json:"quotes"`
+			Var    string `json:"var"`
+			A      []int  `json:"a"`
+			B      []int  `json:"b"`
+		}
+		must(json.Unmarshal(sc.Bytes(), &c))
+		switch {
+		case c.Var != "":
+			emit(pairEvent{Ev: "Pair", Var: c.Var, A: lexRun(str(c.A)), B: lexRun(str(c.B))})
+		case c.Kind != "":
+			emit(oneEvent{Ev: "One", Kind: c.Kind, Quotes: c.Quotes, run: lexRun(str(c.In))})
+		default:
+			for range caps { // every capacity
+				emit(lexEvent{Ev: "Lex", Src: "replay", run: lexRun(str(c.In))})
+			}
+		}
+	}
+	must(sc.Err())
+}
+
 func main() {
 	if len(os.Args) < 2 {
 		must(fmt.Errorf("usage: lexdrv exhaustive|values|pairs|random ..."))
@@ -371,6 +413,8 @@ func main() {
 		values()
 	case "pairs":
 		pairs(readSentences(*in))
+	case "texts":
+		textsMode(*in)
 	case "random":
 		var s []sentence
 		if *in != "" {
